@@ -525,6 +525,8 @@ func checkAndPropagateArgs(
 	argTs []*base.T,
 ) (err error) {
 
+	defer verifBind(m, class, methodT, argTs)(&err)
+
 	var isAsterisk bool
 	var defineArgIdx int
 	var argIdx int
